@@ -29,7 +29,7 @@ import (
 	"github.com/dolthub/dolt/go/zzverif/vh"
 )
 
-const c42nRule = "1-3 clients each open a NomsBlockStore on one shared blobstore (in-memory: NewBSStore / NewNoConjoinBSStore on the one object; local: a LocalBlobstore per client on one directory; git: NewGitStore / NewNoConjoinGitStore per client on its own cache repository with one bare remote, part size 4 KiB or default) with a memtable of 8 KiB / 64 KiB / 1 MiB, and run 4-14 generated steps: put 1-6 chunks (1..3000 bytes; sometimes a chunk another client already wrote), commit (a fresh root chunk is put and Commit(root, last) is called with last = the client's Root(), the true current root, or a root the store never had), rebase, reopen (close and open again on the same or a new blobstore handle; uncommitted chunks are dropped from the model), read; in-memory cases may add a bulk step of 257-300 single-chunk tables with a tiny memtable to cross the conjoin threshold. Model: a root register updated only by Commit with last == the committer's view == the current root (else false, and the committer sees the current root afterwards unless last was not its own view), a chunk is durable once a commit of its writer succeeded. After every step the acting client's Root() equals its model view, its own pending chunks and every chunk durable in its view read back exactly (Get/Has/HasMany), chunks nobody gave it are absent; at the end a fresh client sees the model root and every durable chunk. Non-trivial: a commit rejected because another client moved the root, later retried successfully, and a reopen; distinct by (backend wiring, step sequence)."
+const c42nRule = "1-3 clients each open a NomsBlockStore on one shared blobstore (in-memory: NewBSStore / NewNoConjoinBSStore on the one object; local: a LocalBlobstore per client on one directory; git: NewGitStore / NewNoConjoinGitStore per client on its own cache repository with one bare remote, part size 4 KiB or default) with a memtable of 8 KiB / 64 KiB / 1 MiB, and run 4-14 generated steps: put 1-6 chunks (1..3000 bytes; sometimes a chunk another client already wrote), commit (a fresh root chunk is put and Commit(root, last) is called with last = the client's Root(), the true current root, or a root the store never had), rebase, reopen (close and open again on the same or a new blobstore handle; uncommitted chunks are dropped from the model), read; in-memory cases may add a bulk step of 257-300 single-chunk tables with a tiny memtable to cross the conjoin threshold. Model: a root register updated only by Commit with last == the committer's view == the current root (else false, and the committer sees the current root afterwards unless last was not its own view), a chunk is durable once a commit of its writer succeeded. After every step the acting client's Root() equals its model view, its own pending chunks and every chunk durable in its view read back exactly (Get/Has/HasMany), chunks nobody gave it are absent; at the end a fresh client sees the model root and every durable chunk. Non-trivial: a commit rejected because another client moved the root and later retried successfully by the same client; distinct by (backend wiring, step sequence)."
 
 type c42nSkipper interface {
 	Helper()
@@ -198,6 +198,13 @@ func c42nBytes(seed uint64, n int) []byte {
 	return out
 }
 
+// c42nPct draws a number in [0,100) that is close to uniform (rapid's integer generators
+// favour small values); 0 stays 0, so cases shrink towards the first alternative.
+func c42nPct(rt *rapid.T, label string) int {
+	x := rapid.Uint64().Draw(rt, label)
+	return int(((x * 0x9E3779B97F4A7C15) >> 33) % 100)
+}
+
 func c42nNoAddrs(chunks.Chunk) chunks.InsertAddrsCb {
 	return func(ctx context.Context, addrs hash.HashSet, exists chunks.PendingRefExists) error { return nil }
 }
@@ -322,13 +329,13 @@ func (m *c42nModel) verify(rt *rapid.T, ctx context.Context, c *c42nClient, why 
 func c42nCase(rt *rapid.T, rec *vh.Recorder) {
 	ctx := context.Background()
 	var kind string
-	switch n := rapid.IntRange(0, 99).Draw(rt, "backend"); {
-	case n < 8:
-		kind = "local"
-	case n < 12:
-		kind = "git"
-	default:
+	switch n := c42nPct(rt, "backend"); {
+	case n < 87:
 		kind = "inmem"
+	case n < 95:
+		kind = "local"
+	default:
+		kind = "git"
 	}
 	w, rm := c42nNewWorld(rt, kind)
 	defer rm()
@@ -337,7 +344,12 @@ func c42nCase(rt *rapid.T, rec *vh.Recorder) {
 	if kind == "git" && rapid.Bool().Draw(rt, "git.smallParts") {
 		w.gitPart = 4 << 10
 	}
-	nClients := rapid.IntRange(1, 3).Draw(rt, "nClients")
+	nClients := 1
+	if n := c42nPct(rt, "nClients"); n >= 65 {
+		nClients = 3
+	} else if n >= 20 {
+		nClients = 2
+	}
 	maxSteps := 14
 	if kind == "local" {
 		maxSteps = 8
@@ -452,7 +464,7 @@ func c42nCase(rt *rapid.T, rec *vh.Recorder) {
 
 	for step := 0; step < nSteps; step++ {
 		c := clients[rapid.IntRange(0, nClients-1).Draw(rt, "client")]
-		switch op := rapid.IntRange(0, 99).Draw(rt, "op"); {
+		switch op := c42nPct(rt, "op"); {
 		case op < 34: // put
 			n := rapid.IntRange(1, 6).Draw(rt, "nPut")
 			for i := 0; i < n; i++ {
@@ -554,7 +566,7 @@ func c42nCase(rt *rapid.T, rec *vh.Recorder) {
 	if conjoinBulk {
 		classes = append(classes, "conjoin_bulk")
 	}
-	rec.Case(strings.Join(ops, " "), lostRace && retriedOK && reopened, classes...)
+	rec.Case(strings.Join(ops, " "), lostRace && retriedOK, classes...)
 }
 
 func TestVerif_C42_NBS(t *testing.T) {
